@@ -4521,3 +4521,115 @@ func sharedTTLStoreSkipsOPT(c *an.Ctx, rule string, prefixes ...string) (examine
 	}
 	return examined
 }
+
+// sharedDomainConcatBounded is the length rule for domain names that are built
+// by concatenation: a string concatenation stored into a domain-name field of a
+// resource record (a field of a miekg/dns record type whose struct tag says
+// "domain-name" or "cdomain-name") can exceed the 255-octet limit when one
+// operand is as long as a name may be (the question name); the packed message
+// is then undecodable.  The store must be dominated by a comparison on a
+// length.  Returns the number of such stores examined.
+func sharedDomainConcatBounded(c *an.Ctx, rule string, allowed map[string]string, prefixes ...string) (examined int) {
+	isDomainField := func(addr ssa.Value) (string, bool) {
+		fa, ok := addr.(*ssa.FieldAddr)
+		if !ok {
+			return "", false
+		}
+		st, ok := an.Deref(fa.X.Type()).Underlying().(*types.Struct)
+		if !ok {
+			return "", false
+		}
+		named := an.NamedOf(fa.X.Type())
+		if named == nil || named.Obj().Pkg() == nil || named.Obj().Pkg().Path() != "github.com/miekg/dns" {
+			return "", false
+		}
+		tag := st.Tag(fa.Field)
+		if !strings.Contains(tag, "domain-name") {
+			return "", false
+		}
+		return named.Obj().Name() + "." + st.Field(fa.Field).Name(), true
+	}
+	for _, fn := range c.AllFns {
+		if fn.Blocks == nil || c.IsTestFile(fn.Pos()) || !hasAnyPrefix(an.FnKey(fn), prefixes) {
+			continue
+		}
+		k := an.FnKey(fn)
+		an.Instrs(fn, func(in ssa.Instruction) {
+			st, ok := in.(*ssa.Store)
+			if !ok {
+				return
+			}
+			field, ok := isDomainField(st.Addr)
+			if !ok {
+				return
+			}
+			bo, ok := st.Val.(*ssa.BinOp)
+			if !ok || bo.Op != token.ADD {
+				return
+			}
+			// a concatenation with a non-constant operand
+			_, xk := bo.X.(*ssa.Const)
+			_, yk := bo.Y.(*ssa.Const)
+			if xk && yk {
+				return
+			}
+			examined++
+			c.Analysed(k)
+			if why := allowed[k+" "+field]; why != "" {
+				c.Ok(rule, k+" bounds the concatenated "+field, st.Pos(), "exception: "+why)
+				return
+			}
+			bounded := false
+			for _, e := range an.DominatingConds(st.Block()) {
+				cond, isBo := e.If.Cond.(*ssa.BinOp)
+				if !isBo {
+					continue
+				}
+				for _, side := range []ssa.Value{cond.X, cond.Y} {
+					hasLen := false
+					var walk func(v ssa.Value, d int)
+					walk = func(v ssa.Value, d int) {
+						if v == nil || d > 4 {
+							return
+						}
+						switch x := v.(type) {
+						case *ssa.Call:
+							if b, isB := x.Call.Value.(*ssa.Builtin); isB && b.Name() == "len" {
+								hasLen = true
+							}
+						case *ssa.BinOp:
+							walk(x.X, d+1)
+							walk(x.Y, d+1)
+						}
+					}
+					walk(side, 0)
+					if !hasLen {
+						continue
+					}
+					// an upper bound on the taken edge: len-side < / <= other (true edge), or
+					// len-side > / >= other (false edge); mirrored when the length is on the right
+					op := cond.Op
+					if side == cond.Y {
+						switch op {
+						case token.LSS:
+							op = token.GTR
+						case token.LEQ:
+							op = token.GEQ
+						case token.GTR:
+							op = token.LSS
+						case token.GEQ:
+							op = token.LEQ
+						}
+					}
+					if ((op == token.LSS || op == token.LEQ) && e.Branch) || ((op == token.GTR || op == token.GEQ) && !e.Branch) {
+						bounded = true
+					}
+				}
+			}
+			c.Check(bounded, rule, k+" bounds the concatenated "+field, st.Pos(),
+				"the concatenation is reached only under a length comparison",
+				"a domain name is built by concatenation and stored into "+field+" without a length check: with an operand as long as a name may be, the result exceeds 255 octets and the response cannot be decoded")
+		})
+	}
+	return examined
+}
